@@ -20,6 +20,7 @@ import (
 	"fmt"
 	"math/bits"
 	"os"
+	"path/filepath"
 	"reflect"
 	"regexp"
 	"runtime"
@@ -578,7 +579,8 @@ func main() {
 		_ = syscall.Setrlimit(syscall.RLIMIT_AS, &syscall.Rlimit{Cur: 12 << 30, Max: 12 << 30})
 		l := core.NewLocal()
 		col := newCollector()
-		t := &tot{sample: r.Worker == 0, l: l, st: [2]*station{newStation(false), newStation(true)}, budget: *budgetFlag}
+		t := &tot{sample: r.Worker == 0, l: l, st: [2]*station{newStation(false), newStation(true)}, budget: *budgetFlag, marker: r.Out + ".harness-error"}
+		_ = os.Remove(t.marker)
 		for gi, g := range groups {
 			g := g
 			if r.Expired() {
@@ -650,7 +652,16 @@ func main() {
 	sort.Strings(crashed)
 	for _, c := range crashed {
 		if strings.Contains(c, "exit status 2") {
-			core.Fatal("totality worker reported a harness error: %s", c)
+			// exit status 2 is a harness error of the worker (it left a marker) or a fatal error of the Go runtime
+			// (out of memory under the address-space cap, concurrent map access ...): the latter is a finding
+			var wn int
+			if _, err := fmt.Sscanf(c, "worker %d:", &wn); err == nil {
+				if _, err := os.Stat(filepath.Join(r.PartsDir(), fmt.Sprintf("part%d.json.harness-error", wn))); err == nil {
+					core.Fatal("totality worker reported a harness error: %s", c)
+				}
+			} else {
+				core.Fatal("totality worker reported a harness error: %s", c)
+			}
 		}
 		// the last progress line names the group; strip the case counter to keep the signature stable
 		grp := c
